@@ -148,6 +148,88 @@ def _layer_worker(args):
     return acc.result()
 
 
+# ---- records at the size boundaries of their length fields (sparse delivery points) ---------------------------------
+def big_records():
+    """[(layer, class, label, record bytes)] - composed records whose length sits at 2^14 / 2^15 / 2^16 boundaries."""
+    from cryptodatahub.tls.algorithm import SslCipherKind
+    from cryptodatahub.tls.version import TlsVersion
+    from cryptoparser.tls.version import TlsProtocolVersion
+    from cryptoparser.tls.record import TlsRecord, SslRecord
+    from cryptoparser.tls import subprotocol as sp
+    from cryptoparser.ssh import record as sr, subprotocol as ss
+    out = []
+    kinds = list(SslCipherKind)[:1]
+    for body in (16383, 16384, 16385, 20000, 32767):
+        cert = body - (1 + 1 + 1 + 2 + 2 + 2 + 2 + 3 * len(kinds) + 16)
+        try:
+            rec = bytes(SslRecord(sp.SslHandshakeServerHello(b'c' * cert, kinds, b'\x01' * 16)).compose())
+        except Exception:  # noqa
+            continue
+        out.append(('ssl2_record', SslRecord, 'ssl2_body_%d' % (len(rec) - 2), rec))
+    v12 = TlsProtocolVersion(TlsVersion.TLS1_2)
+    for n in (16383, 16384):
+        out.append(('tls_record', TlsRecord, 'tls_fragment_%d' % n,
+                    bytes(TlsRecord(b'a' * n, v12, sp.TlsContentType.APPLICATION_DATA).compose())))
+    for n in (32768, 34000):
+        out.append(('ssh_init', sr.SshRecordInit, 'ssh_payload_%d' % n, bytes(sr.SshRecordInit(
+            ss.SshDisconnectMessage(ss.SshReasonCode.BY_APPLICATION, 'x' * n, '')).compose())))
+    return out
+
+
+def _big_worker(i):
+    """One big record followed by a small one of its layer; delivery points: 0..8, +-2 around every multiple of 2^14
+    and around the record end, the last 4 bytes, and the whole stream - each judged by the per-state clauses of the BFS
+    (every state (0, d) is initial there, so no closure is needed for these clauses)."""
+    acc = core.Acc()
+    layer, cls, label, rec = big_records()[i]
+    small = None
+    for lname, lcls, recs, extra in layers.layers():
+        if lname == layer:
+            small = min(recs, key=len)
+    follow = small or b''
+    S = rec + follow
+    end = len(rec)
+    reader = Reader(cls, acc)
+    try:
+        expected = canon.dump(cls.parse_exact_size(rec), eq=True)
+    except Exception as e:  # noqa
+        acc.violation('%s:big:complete_raises:%s' % (layer, type(e).__name__), 'the composed record %s is rejected by '
+                      'its own parser' % label, {'layer': layer, 'big': label, 'clause': 'complete_raises'})
+        return acc.result()
+    points = set(range(0, 9)) | {end - k for k in range(0, 5)} | {end + k for k in range(1, 4)} | {len(S)}
+    for mult in range(1, end // 16384 + 2):
+        points |= {mult * 16384 + k for k in range(-3, 6)}
+    for d in sorted(p for p in points if 0 <= p <= len(S)):
+        kind, a, b = reader.parse(S[:d])
+        acc.counters['transitions'] = acc.counters.get('transitions', 0) + 1
+        acc.counters['states'] = acc.counters.get('states', 0) + 1
+        acc.state(core.h64('big', label, d))
+        w = {'layer': layer, 'big': label, 'd': d, 'record_len': end}
+        if kind == 'ok':
+            if d < end:
+                acc.violation('%s:big:premature_accept' % layer, 'a proper prefix (%d of %d bytes) of %s was accepted'
+                              % (d, end, label), w)
+            elif a != end:
+                acc.violation('%s:big:wrong_length' % layer, '%s parsed with n=%d, record is %d bytes' % (label, a, end), w)
+            elif b != expected:
+                acc.violation('%s:big:wrong_object' % layer, '%s parses differently when followed by %d more bytes'
+                              % (label, d - end), w)
+        elif kind == 'ned':
+            if not isinstance(a, int) or a < 1:
+                acc.violation('%s:big:bytes_needed_lt_1' % layer, 'NotEnoughData(bytes_needed=%r)' % (a,), w)
+            elif d >= end:
+                acc.violation('%s:big:complete_record_rejected' % layer, 'complete %s (+%d bytes) rejected with '
+                              'NotEnoughData(%d)' % (label, d - end, a), w)
+            elif d + a > end:
+                acc.violation('%s:big:deadlock_overask' % layer, 'reader asks for %d bytes, %d remain in %s'
+                              % (a, end - d, label), w)
+        else:
+            acc.violation('%s:big:%s_raises:%s' % (layer, 'prefix' if d < end else 'complete', a),
+                          '%s of %s raises %s' % ('a prefix' if d < end else 'the complete record', label, a), w)
+    acc.sample({'layer': layer, 'big_record': label, 'bytes': end, 'delivery_points': len(points)}, 1)
+    return acc.result()
+
+
 # ---- handshake messages fragmented over records -----------------------------------------------------------
 def _handshake_worker(args):
     """Two-level reader: record reader as above, then TlsHandshakeMessageVariant.parse_mutable on the
@@ -256,6 +338,7 @@ def run(ctx):
         for p in range(parts):
             items.append((name, depth, p, parts))
     ctx.pmap(_layer_worker, items)
+    ctx.pmap(_big_worker, list(range(len(big_records()))))
     nmsg = len(layers.handshake_messages())
     combos = []
     for n in range(1, 3 if ctx.quick else 4):
@@ -269,6 +352,7 @@ def run(ctx):
     ]
     return ctx.finish(rule='per layer (14 layers): all record sequences of length <= %d over a 1-5 record alphabet; '
                            'BFS over all (records emitted, bytes delivered) states with every delivery d\' >= d+k; '
+                           'records at the 2^14 / 2^15 boundaries of their length fields at ~60 delivery points each; '
                            'handshake streams of <= %d messages cut at every set of <= 2-3 positions'
                            % (depth, 2 if ctx.quick else 3))
 
@@ -283,6 +367,15 @@ def replay(ctx, w):
             if v['witness'].get('cuts') == w.get('cuts'):
                 return v
         return res[1][0] if res[1] else None
+    if w.get('big'):
+        for i, (layer, cls, label, rec) in enumerate(big_records()):
+            if label == w['big']:
+                res = _big_worker(i)
+                for v in res[1]:
+                    if v['witness'].get('d') == w.get('d'):
+                        return v
+                return res[1][0] if res[1] else None
+        return None
     for lname, cls, recs, extra in layers.layers():
         if lname == w['layer']:
             reader = Reader(cls, acc)
